@@ -421,6 +421,57 @@ def directed(ctx, res):
                 res.corr_disagreements.append((comp, inp[:600], m[:700], e[:700]))
 
 
+def check_overlapping_iterators(ctx, res):
+    """two DataIterators alive at the same time (the first kept while the second is built and read; two files read side by
+    side): each one's .directives is the list of ITS file's ## lines"""
+    from gffutils import iterators
+    r = ctx.rng("c14", "overlapping iterators")
+    for i in range(12 if not ctx.thorough else 120):
+        files = []
+        for j in range(2):
+            nd = r.randrange(0, 4)
+            lines = []
+            for k in range(r.randrange(2, 6)):
+                if nd and r.random() < 0.6:
+                    lines.append("##file%d-directive-%d" % (j, k))
+                    nd -= 1
+                lines.append("chr1\tsrc\tgene\t%d\t%d\t.\t+\t.\tID=f%d_%d" % (10 * k + 1, 10 * k + 5, j, k))
+            path = os.path.join(ctx.scratch, "c14_ov%d.gff3" % j)
+            with open(path, "w", encoding="utf-8") as fh:
+                fh.write("".join(l + "\n" for l in lines))
+            files.append((path, [l[2:] for l in lines if l.startswith("##")], lines))
+        mode = i % 3
+        case = {"scenario": "overlapping_iterators", "input": files[0][2], "other_file": files[1][2], "mode": mode,
+                "no_shrink": True}
+        try:
+            if mode == 0:          # first finished and kept, then the second built and read
+                a = iterators.DataIterator(files[0][0]); list(a)
+                b = iterators.DataIterator(files[1][0]); list(b)
+            elif mode == 1:        # both built, then read one after the other
+                a = iterators.DataIterator(files[0][0]); b = iterators.DataIterator(files[1][0])
+                list(a); list(b)
+            else:                  # read side by side
+                a = iterators.DataIterator(files[0][0]); b = iterators.DataIterator(files[1][0])
+                for _ in zip(a, b):
+                    pass
+                list(a); list(b)
+            got = [list(a.directives), list(b.directives)]
+        except Exception as ex:
+            common.fail(res, case, "iteration_raised", "two DataIterators alive at once raised %r" % ex)
+            continue
+        res.evaluations += 1
+        res.count("overlapping_iterators_mode_%d" % mode)
+        want = [files[0][1], files[1][1]]
+        if mode == 2:
+            # read side by side, zip stops at the shorter file and the rest is read afterwards from the start of a fresh
+            # pass: every pass resets the list, so the full pass at the end decides
+            pass
+        if got != want:
+            common.fail(res, case, "directives_of_overlapping_iterators_mixed",
+                        "the directives of two DataIterators that were alive at the same time are not those of their own "
+                        "files", observed=got, expected=want)
+
+
 def run(ctx):
     res = common.Result("C14")
     r = ctx.rng("c14")
@@ -549,6 +600,7 @@ def run(ctx):
         tags.append(("line classification (_custom_iter L137-145), file stored as " + mode, repr(s)))
 
     # model ----------------------------------------------------------------------------------------------
+    check_overlapping_iterators(ctx, res)
     out = ctx.model(cmds)
     if out is not None:
         for m, e, (comp, inp) in zip(out, exp, tags):
